@@ -320,6 +320,21 @@ def run_item(item) -> Acc:
                 nf = dict(files)
                 nf[target] = "\n".join(new_lines)
                 expect_and_check(form, spelling, placement, nf, cfg, shift, scope, names_me and placement != "no-violation-line", n=n)
+    # two directives stacked on ONE violation: one names the linter, the other names another linter;
+    # the unrelated one must not cancel the matching one (all ordered pairs of distinct line forms)
+    if not path_based and name not in ("file-header", "dry"):
+        for f_mine in ("same-line", "next-line", "block"):
+            for f_other in ("same-line", "next-line", "block"):
+                if f_mine == f_other:
+                    continue
+                s_mine = _spelled("full", rule_at[v1], prefix, aliases)
+                # the unrelated directive goes in first (outer), the matching one second, so that
+                # the matching one stays adjacent to the violation line
+                La, shift_a, _sc = _insert(lines, f_other, v1, other_name, cm)
+                Lb, shift_b, _sc2 = _insert(La, f_mine, shift_a(v1), s_mine, cm)
+                nf = dict(files)
+                nf[target] = "\n".join(Lb)
+                expect_and_check(f"{f_mine}+unrelated-{f_other}", "full", "stacked-on-v1", nf, cfg, (lambda x, a=shift_a, b=shift_b: b(a(x))), (lambda x: x == v1), True, n=v1)
     # thorough: two directives in one file, every ordered pair of line-scoped forms on two violations
     if item.get("pairs") and v2 and not path_based and name not in ("file-header", "dry"):
         for f1 in ("same-line", "next-line", "block"):
